@@ -124,6 +124,11 @@ func (t *mixedTable) next(k Value) (next Value, v Value, ok bool) {
 		isInt = true
 	} else {
 		i, isInt = ToIntNoString(k)
+		if isInt && i < 1 {
+			// Only positive integers can be in the array part (0 means "before
+			// the first item" for array.next).
+			k, isInt = IntValue(i), false
+		}
 	}
 	if isInt {
 		j, v, ok := t.array.next(i)
